@@ -56,6 +56,16 @@ import "net/netip"
 // entry built by NewPeer from ANY address values (also the invalid zero address the daemon uses as the source of
 // locally originated routes) serialises to exactly the octets its type bits announce, so that the decoder consumes
 // the entry completely and the following entries stay framed
+// TABLE_DUMPv2 RIB records (RFC 6396 4.3.2 / 4.3.3): the four families that have a subtype of their own carry the
+// prefix right after the sequence number; every other family goes into RIB_GENERIC, which carries AFI and SAFI
+// first. parseRib reads them that way (family 0 = generic), and the daemon picks the subtype by the same rule.
+//@ props C19
+//@ spec ribOwnSubtype(f bgp.Family) bool = f == bgp.RF_IPv4_UC || f == bgp.RF_IPv4_MC || f == bgp.RF_IPv6_UC || f == bgp.RF_IPv6_MC
+//@ func (*Rib).Serialize
+//@   requires u != nil
+//@   claims at-call
+//@   at-call u.Prefix.Serialize() requires len(buf) == (ribOwnSubtype(u.Family) ? 4 : 7)
+
 //@ props C19
 //@ func verifMRTPeerFraming
 //@   inline-calls
